@@ -253,7 +253,10 @@ def split_cases(lines):
     cases = {}
     cur = None
     for i, rec in enumerate(lines):
-        if rec.get("ev") == "reset":
+        if rec.get("ev") == "one":
+            cases[rec["case"]] = {"reset": rec, "lines": [], "first_line": i + 1}
+            cur = None
+        elif rec.get("ev") == "reset":
             cur = rec["case"]
             cases[cur] = {"reset": rec, "lines": [], "first_line": i + 1}
         elif cur is not None:
@@ -309,6 +312,9 @@ class Verdict:
         self.known_hits = {}      # finding id -> count
         self.t0 = time.time()
         os.makedirs(REPLAYS, exist_ok=True)
+        import glob
+        for old in glob.glob(os.path.join(REPLAYS, "%s-%s-%d-*.json" % (prop, tier, seed))):
+            os.remove(old)
 
     def report(self, sig, replay, what=""):
         """sig: dict of stable coordinates of the failing case; replay: JSON-serialisable dict."""
